@@ -41,8 +41,19 @@ class CostSpec(cost_spec.CostSpec):
             return amount.raw_number
         return self.raw_number_comp
 
+    def _merge_number_and_currency(self) -> None:
+        # Number, Currency -> Amount, so that the setters below only ever see one of them.
+        if self.raw_compound_amount_comp or self.raw_amount_comp:
+            return
+        number, currency = self.raw_number_comp, self.raw_currency_comp
+        if number is not None and currency is not None:
+            self.raw_amount_comp = Amount.from_children(copy.deepcopy(number), copy.deepcopy(currency))
+            self.raw_number_comp = None
+            self.raw_currency_comp = None
+
     @raw_number_per.setter
     def __raw_number_per(self, value: Optional[NumberExpr]) -> None:
+        self._merge_number_and_currency()
         if compound_amount := self.raw_compound_amount_comp:  # CompoundAmount
             compound_amount.raw_number_per = value
         elif isinstance(self.raw_cost, UnitCost):
@@ -89,6 +100,7 @@ class CostSpec(cost_spec.CostSpec):
 
     @raw_number_total.setter
     def __raw_number_total(self, value: Optional[NumberExpr]) -> None:
+        self._merge_number_and_currency()
         if compound_amount := self.raw_compound_amount_comp:  # CompoundAmount
             compound_amount.raw_number_total = value
         elif isinstance(self.raw_cost, TotalCost):
@@ -132,6 +144,7 @@ class CostSpec(cost_spec.CostSpec):
 
     @raw_currency.setter
     def __raw_currency(self, value: Optional[Currency]) -> None:
+        self._merge_number_and_currency()
         if compound_amount := self.raw_compound_amount_comp:
             if value:  # CompoundAmount
                 compound_amount.raw_currency = value
@@ -156,6 +169,9 @@ class CostSpec(cost_spec.CostSpec):
             else:  # Amount - Currency -> Number
                 self.raw_number_comp = copy.deepcopy(amount.raw_number)
                 self.raw_amount_comp = None
+        elif (number := self.raw_number_comp) and value:  # Number + Currency -> Amount
+            self.raw_amount_comp = Amount.from_children(copy.deepcopy(number), value)
+            self.raw_number_comp = None
         else:  # Currency
             self.raw_currency_comp = value
 
